@@ -629,10 +629,20 @@ func caseRef(rid string) Case {
 	return c
 }
 
+// violations seen by the Go side when decoding into non-zero targets
+var reuseImpl []ImplViolation
+
 func caseRefU(text string) Case {
 	var r res.Ref
 	err := r.UnmarshalJSON([]byte(text))
 	c := Case{Desc: mkDesc("refu", text)}
+	// the same text into targets that already hold something
+	used, usedSoft := res.Ref("old.value"), res.SoftRef("old.value")
+	var freshSoft res.SoftRef
+	e1, e2, e3 := used.UnmarshalJSON([]byte(text)), usedSoft.UnmarshalJSON([]byte(text)), freshSoft.UnmarshalJSON([]byte(text))
+	if (e1 == nil) != (err == nil) || (e2 == nil) != (e3 == nil) || (err == nil && (used != r || string(usedSoft) != string(freshSoft))) {
+		reuseImpl = append(reuseImpl, ImplViolation{What: fmt.Sprintf("Ref/SoftRef.UnmarshalJSON into a used target gives %q/%q, into a zero target %q/%q", used, usedSoft, r, freshSoft), Desc: c.Desc})
+	}
 	c.Term = fmt.Sprintf("CRefU %s %s %s", B(text), goView([]byte(text)).term(), OptB(string(r), err == nil))
 	c.Nontrivial = err == nil && r != ""
 	return c
@@ -823,6 +833,13 @@ func caseDVU(text string) Case {
 	var err error
 	pan := safe(func() { err = resprot.UnmarshalDataValue([]byte(text), &raw) })
 	c := Case{Desc: mkDesc("dvu", text)}
+	// the same text into a target that already holds something
+	used := json.RawMessage(`{"old":[1,2,3]}`)
+	var e2 error
+	safe(func() { e2 = resprot.UnmarshalDataValue([]byte(text), &used) })
+	if !pan && ((e2 == nil) != (err == nil) || (err == nil && !bytes.Equal(used, raw))) {
+		reuseImpl = append(reuseImpl, ImplViolation{What: fmt.Sprintf("UnmarshalDataValue into a used target gives %q, into a zero target %q", used, raw), Desc: c.Desc})
+	}
 	out := rawOutcome(raw, err)
 	if pan {
 		out = outcomePanic()
@@ -895,6 +912,98 @@ func caseVal(ts [3]string) Case {
 	c.Nontrivial = anyEq || strings.ContainsAny(types, "2345")
 	c.Key = ts[0] + "\x00" + ts[1] + "\x00" + ts[2]
 	return c
+}
+
+// decodeInto decodes text into the Value that already holds an earlier decode (mode 0: UnmarshalJSON directly,
+// 1: json.Unmarshal into the same Value, 2: the same element of one []Value, 3: the same entry of one map)
+func reuseDecode(mode int, a, b string) (v store.Value, err error, pan bool) {
+	pan = safe(func() {
+		switch mode {
+		case 0:
+			v.UnmarshalJSON([]byte(a))
+			err = v.UnmarshalJSON([]byte(b))
+		case 1:
+			json.Unmarshal([]byte(a), &v)
+			err = json.Unmarshal([]byte(b), &v)
+		case 2:
+			var s []store.Value
+			json.Unmarshal([]byte("["+a+"]"), &s)
+			err = json.Unmarshal([]byte("["+b+"]"), &s)
+			if err == nil {
+				if len(s) != 1 {
+					err = errors.New("length")
+				} else {
+					v = s[0]
+				}
+			}
+		default:
+			m := map[string]store.Value{}
+			json.Unmarshal([]byte(`{"k":`+a+`}`), &m)
+			err = json.Unmarshal([]byte(`{"k":`+b+`}`), &m)
+			v = m["k"]
+		}
+	})
+	return
+}
+
+// caseReuse: B and C decoded into Values that held A before, next to fresh decodes of B and C
+func caseReuse(mode int, a, b, c string) Case {
+	var vals [4]store.Value
+	var oks [4]bool
+	var terms, marsh []string
+	stale := false
+	for i := 0; i < 4; i++ {
+		var v store.Value
+		var err error
+		var pan bool
+		switch i {
+		case 0:
+			v, err, pan = reuseDecode(mode, a, b)
+		case 1:
+			pan = safe(func() { err = v.UnmarshalJSON([]byte(b)) })
+		case 2:
+			pan = safe(func() { err = v.UnmarshalJSON([]byte(c)) })
+		default:
+			v, err, pan = reuseDecode(mode, a, c)
+		}
+		switch {
+		case pan:
+			terms = append(terms, outcomePanic())
+			marsh = append(marsh, "[]")
+		case err != nil:
+			terms = append(terms, outcomeErr())
+			marsh = append(marsh, "[]")
+		default:
+			terms = append(terms, ok(valueTerm(v)))
+			vals[i], oks[i] = v, true
+			mb, _ := v.MarshalJSON()
+			marsh = append(marsh, B(string(mb)))
+		}
+	}
+	if oks[0] && oks[1] && (vals[0].RID != vals[1].RID || !bytes.Equal(vals[0].Inner, vals[1].Inner)) {
+		stale = true
+	}
+	var eq []string
+	for i := 0; i < 4; i++ {
+		for k := 0; k < 4; k++ {
+			e := false
+			if oks[i] && oks[k] {
+				safe(func() { e = vals[i].Equal(vals[k]) })
+			}
+			eq = append(eq, Bool(e))
+		}
+	}
+	d := mkDesc("reuse", a, b, c)
+	d.Via = strconv.Itoa(mode)
+	cs := Case{Desc: d}
+	cs.Term = fmt.Sprintf("CReuse %d %s %s %s %s %s %s %s %s", mode, B(a), B(b), goView([]byte(b)).term(), B(c), goView([]byte(c)).term(),
+		List(terms), List(marsh), List(eq))
+	cs.Nontrivial = oks[0] || oks[3]
+	if stale {
+		cs.Tags = append(cs.Tags, "stale-field")
+	}
+	cs.Key = d.Via + a + "\x00" + b + "\x00" + c
+	return cs
 }
 
 // ---------------------------------------------------------------- responses through a real service
@@ -1562,6 +1671,9 @@ func main() {
 			add("replay", caseDVU(d.input(0)))
 		case "val":
 			add("replay", caseVal([3]string{d.input(0), d.input(1), d.input(2)}))
+		case "reuse":
+			mode, _ := strconv.Atoi(d.Via)
+			add("replay", caseReuse(mode, d.input(0), d.input(1), d.input(2)))
 		case "respu":
 			add("replay", caseRespU(d.input(0)))
 		case "resp":
@@ -1723,6 +1835,26 @@ func main() {
 			{`{"action":"delete"}`, `{"action":"delete","x":1}`, `{"data":{"action":"delete"}}`}, {`{"data":[1]}`, `{"data":[1] }`, `{"data": [1]}`}, {"null", `{"data":null}`, "{}"}} {
 			add("value", caseVal(ts))
 		}
+		// (e') reuse: every ordered pair of classifier categories, B and a sibling C of B's category decoded into a
+		// Value / slice element / map entry that held A before
+		cats := [][2]string{{"5", "6"}, {`"s"`, `"t"`}, {`{"data":[1]}`, `{"data":[2]}`}, {`{"data":5}`, `{"data":6}`}, {`{"data":{"a":1}}`, `{"x":0,"data":{"a":2}}`},
+			{`{"rid":"a.b"}`, `{"rid":"c.d"}`}, {`{"rid":"a.b","soft":true}`, `{"rid":"c.d","soft":true}`},
+			{`{"action":"delete"}`, `{"action":"delete","x":1}`}, {`[1]`, `{}`}, {`{"rid":"a..b"}`, `{"data":1,"rid":"a.b"}`}}
+		for mode := 0; mode < 4; mode++ {
+			for _, ca := range cats {
+				for _, cb := range cats {
+					add("value-reuse", caseReuse(mode, ca[0], cb[0], cb[1]))
+				}
+			}
+		}
+		for i := scale(120, 3000); i > 0; i-- {
+			a, b := render(r, genValueAST(r), 20), render(r, genValueAST(r), 20)
+			c := render(r, genValueAST(r), 20)
+			if r.Chance(50) {
+				c = b
+			}
+			add("value-reuse", caseReuse(r.Intn(4), a, b, c))
+		}
 		// (f) responses of a real service
 		sv := newSvc()
 		// every reply builder once without and once with meta (all static payloads are hit)
@@ -1814,7 +1946,8 @@ func main() {
 			add("response-text", caseRespU(t))
 		}
 	}
+	impl = append(impl, reuseImpl...)
 	Emit(o, "C18", "From GoRes Require Import Run.Run_C18.", "ccase",
-		"json.Marshal of every 1-byte string, valid 2-byte strings (all in thorough, a stride in quick) and random valid/invalid UTF-8 vs json_escape; string tokens through the decoder vs json_unescape; Ref/SoftRef marshal+unmarshal; resprot data values on random ASTs and texts; triples of RES-value-shaped JSON texts (random white space, extra/duplicate/case-folded members, malformed variants) through store.Value.UnmarshalJSON directly and via json.Unmarshal with the Equal matrix; handler outcomes run on a real res.Service over a recording Conn and parsed with resprot.ParseResponse; arbitrary response texts; non-trivial = escaping changes the string / container data value / a non-primitive store value or an Equal pair / a response with meta, result or error data; distinct by input",
+		"json.Marshal of every 1-byte string, valid 2-byte strings (all in thorough, a stride in quick) and random valid/invalid UTF-8 vs json_escape; string tokens through the decoder vs json_unescape; Ref/SoftRef marshal+unmarshal; resprot data values on random ASTs and texts (also into used targets); store values decoded into used Values / slice elements / map entries for every ordered pair of categories; triples of RES-value-shaped JSON texts (random white space, extra/duplicate/case-folded members, malformed variants) through store.Value.UnmarshalJSON directly and via json.Unmarshal with the Equal matrix; handler outcomes run on a real res.Service over a recording Conn and parsed with resprot.ParseResponse; arbitrary response texts; non-trivial = escaping changes the string / container data value / a non-primitive store value or an Equal pair / a response with meta, result or error data; distinct by input",
 		cases, dist, nil, impl, 1500)
 }
